@@ -596,7 +596,11 @@ func (c *Client) negotiateVersion(ctx context.Context) error {
 	if err := bi.Err(); err != nil {
 		return err
 	}
-	serverVersions := bi.ResponsePayload.(*payloads.DiscoverVersionsResponsePayload).ProtocolVersion
+	pl, ok := bi.ResponsePayload.(*payloads.DiscoverVersionsResponsePayload)
+	if !ok || pl == nil {
+		return fmt.Errorf("Unexpected response payload %T for version discovery", bi.ResponsePayload)
+	}
+	serverVersions := pl.ProtocolVersion
 	// Adopt the highest version that is both configured on the client and advertised by the server,
 	// whatever the order of the server's list and whether or not it only lists versions we offered.
 	var best *kmip.ProtocolVersion
